@@ -41,7 +41,7 @@ func init() {
 	register(&Rule{ID: "R16.1", Props: []string{"C16"}, Floor: 10,
 		Doc: "tag-only addressing in generated accessors; full-width tag comparison in the table lookup",
 		Run: runR16_1})
-	register(&Rule{ID: "R16.2", Props: []string{"C16"}, Floor: 19,
+	register(&Rule{ID: "R16.2", Props: []string{"C16", "C17"}, Floor: 19,
 		Doc: "absent field reads as zero: empty-input prologue of every typed decoder; negative lookup -> nil/false",
 		Run: runR16_2})
 	register(&Rule{ID: "R16.3", Props: []string{"C16"}, Floor: 2,
